@@ -55,6 +55,7 @@ def op? : Sexp → Option Op
   | .list [.atom "resume", t, b] => do some (.resume (← t.nat?) (← b.bool?))
   | .list [.atom "suspend", t] => t.nat?.map .suspend
   | .list [.atom "complete", t, o] => do some (.complete (← t.nat?) (← outc? o))
+  | .list [.atom "threadEnd", th] => th.nat?.map .threadEnd
   | _ => none
 
 def res? : Sexp → Option Res
